@@ -2,6 +2,7 @@ package v1
 
 import (
 	"net/http"
+	"strconv"
 
 	"github.com/formancehq/go-libs/v5/pkg/query"
 	"github.com/formancehq/go-libs/v5/pkg/storage/bun/paginate"
@@ -14,7 +15,12 @@ import (
 func buildGetLogsQuery(r *http.Request) query.Builder {
 	clauses := make([]query.Builder, 0)
 	if after := r.URL.Query().Get("after"); after != "" {
-		clauses = append(clauses, query.Lt("id", after))
+		// ids are numeric: the filter validation refuses a string (anything that is not a number stays one and is a 400)
+		var value any = after
+		if id, err := strconv.ParseUint(after, 10, 64); err == nil {
+			value = id
+		}
+		clauses = append(clauses, query.Lt("id", value))
 	}
 
 	if startTime := r.URL.Query().Get("start_time"); startTime != "" {
